@@ -794,6 +794,12 @@ var MergeFunc = function.New(&function.Spec{
 
 			switch {
 			case ty.IsObjectType() && !arg.IsNull():
+				if !arg.IsKnown() && arg.Range().CouldBeNull() {
+					// An unknown object that might turn out to be null might
+					// contribute no attributes at all, so we can't predict
+					// the attributes of the result.
+					attrsKnown = false
+				}
 				for attr, aty := range ty.AttributeTypes() {
 					attrs[attr] = aty
 				}
@@ -834,8 +840,8 @@ var MergeFunc = function.New(&function.Spec{
 			return first, nil
 		}
 
-		// We had a mix of unknown maps and objects, so we can't predict the
-		// attributes
+		// We had a mix of unknown maps or possibly-null unknown objects and
+		// other objects, so we can't predict the attributes
 		if !attrsKnown {
 			return cty.DynamicPseudoType, nil
 		}
